@@ -42,15 +42,21 @@ def rule_c18_r1b(model: Model) -> RuleResult:
     cfg = cfg_of(model, f)
     nz = Normalizer(model, f, cfg, param_map=_pm(f))
     r.analysed.add(f.qualname)
+    # the merged handler set: what the field converters are built with (whatever the local holding it is called)
     merges = []
     for n in cfg.live_nodes():
-        if n.kind == 'stmt' and isinstance(n.ast, ast.Assign) and any(unparse(tg) == 'handlers' for tg in n.ast.targets):
-            merges.append(n)
+        for root in node_exprs(n):
+            for c in walk_no_nested(root):
+                if isinstance(c, ast.Call) and model.resolve(c.func, f.module, f) == MK and (len(c.args) >= 2 or any(k.arg == 'handlers' for k in c.keywords)):
+                    harg = c.args[1] if len(c.args) >= 2 else next(k.value for k in c.keywords if k.arg == 'handlers')
+                    merges.append((n, harg))
     r.instances += 1
-    if len(merges) != 1:
-        r.fail(f.qualname, f"{len(merges)} handler merges", f.loc(), "the per-class handler set must be built exactly once")
+    forms_ = sorted({nz.expr(h_, n_).replace('$cls.', 'self.cls.') for (n_, h_) in merges})
+    if len(forms_) != 1 or forms_[0].count('ConverterHandlers(') != 1:
+        r.fail(f.qualname, f"{len(forms_)} handler merges", f.loc(), "the per-class handler set must be built exactly once")
     else:
-        form = nz.expr(merges[0].ast.value, merges[0])
+        form = forms_[0]
+        merges = [(merges[0][0], merges[0][1])]
         r.sample({'merge': form})
         want = ('pane.convert.ConverterHandlers($handlers.globals, (*self.cls.__pane_info__.opts.class_handlers, *$handlers.class_local))',
                 'pane.convert.ConverterHandlers($handlers.globals, (self.cls.__pane_info__.opts.class_handlers Add $handlers.class_local))',
@@ -58,7 +64,7 @@ def rule_c18_r1b(model: Model) -> RuleResult:
         if form.replace('self.cls_info.opts', 'self.cls.__pane_info__.opts').replace('self.opts', 'self.cls.__pane_info__.opts') in want:
             r.ok()
         else:
-            r.fail(f.qualname, f"handlers = {form[:200]}", f.loc(merges[0].ast),
+            r.fail(f.qualname, f"handlers = {form[:200]}", f.loc(merges[0][1]),
                    "precedence must be: call-level handlers, then this class's own (inherited) handlers, then those of enclosing classes, "
                    "none dropped, de-duplicated or reordered")
     r.instances += 1
@@ -70,10 +76,13 @@ def rule_c18_r1b(model: Model) -> RuleResult:
                 fc = nz.expr(n.ast.value, n)
     r.sample({'field_converters': fc})
     fld = 'ELEM(self.cls.__pane_info__.fields)'
-    fcn = fc.replace('self.cls_info.fields', 'self.cls.__pane_info__.fields').replace('self.fields', 'self.cls.__pane_info__.fields') if fc else ''
+    fcn = fc.replace('$cls.', 'self.cls.').replace('self.cls_info.fields', 'self.cls.__pane_info__.fields').replace('self.fields', 'self.cls.__pane_info__.fields') if fc else ''
     want_fc = (f"LIST(({fld}.converter if not None is {fld}.converter else pane.convert.make_converter({fld}.type, ",
                f"LIST(({fld}.converter if not {fld}.converter is None else pane.convert.make_converter({fld}.type, ")
-    if fc is not None and fcn.startswith(want_fc) and 'pane.convert.ConverterHandlers(' in fc:
+    # ... or the same choice written the other way round
+    mirrored = bool(re.match(r"^LIST\(\(pane\.convert\.make_converter\(%s\.type, .*\) if (None is %s\.converter|%s\.converter is None) else %s\.converter\)" %
+                             ((re.escape(fld),) * 4), fcn))
+    if fc is not None and (fcn.startswith(want_fc) or mirrored) and 'pane.convert.ConverterHandlers(' in fc:
         r.ok()
     else:
         r.fail(f.qualname, f"field_converters = {str(fc)[:160]}", f.loc(), "a field's own converter must take precedence; otherwise the merged handlers must be used")
@@ -135,6 +144,18 @@ def rule_c18_r2(model: Model) -> RuleResult:
             r.analysed.add(f.qualname)
             passed = [unparse(a) for a in c.args] + [unparse(k.value) for k in c.keywords]
             fw = [p for p in passed if re.search(r'\bhandlers\b', p)]
+            if not fw:
+                # a local with another name that is computed from the handlers in scope (`field_handlers = ConverterHandlers(handlers...)`)
+                try:
+                    ef_ = model.enclosing_function(c) or f
+                    ecfg = cfg_of(model, ef_)
+                    enz = Normalizer(model, ef_, ecfg, param_map=_pm(ef_))
+                    en = ecfg.node_of(c)
+                    if en is not None:
+                        forms = [enz.expr(a, en) for a in c.args if not isinstance(a, ast.Starred)] + [enz.expr(k.value, en) for k in c.keywords]
+                        fw = [x for x in forms if re.search(r'(\$|self\.|\.)handlers\b', x)]
+                except AnalysisError:
+                    pass
             r.sample({'function': f.qualname, 'call': unparse(c)[:80]})
             if fw:
                 r.ok()
